@@ -10,6 +10,7 @@
 #include <signal.h>
 #include <dirent.h>
 #include "simproxy.h"
+#include "colvargrid.h"
 #include "colvars_memstream.h"
 #include "colvarcomp.h"
 #include "depsrec.h"
@@ -184,6 +185,78 @@ static json metric_case(json const &cmd)
   }
   r["err"] = cvm::get_error();
   cvm::clear_error();
+  return r;
+}
+
+// ---- PMF integrator (C16): protected members reached through a subclass, no hook needed
+struct ip_probe : public integrate_potential {
+  ip_probe(std::shared_ptr<colvar_grid_gradient> g) : integrate_potential(g) {}
+  std::vector<cvm::real> &div() { return divergence; }
+  void lap(std::vector<cvm::real> const &x, std::vector<cvm::real> &r) { atimes(x, r); }
+};
+static std::shared_ptr<colvar_grid_gradient> ip_grad;
+static std::unique_ptr<ip_probe> ip;
+
+static json ip_handle(json const &cmd)
+{
+  json r;
+  std::string const op = cmd.at("op");
+  cvm::clear_error();
+  if (op == "ipnew") {
+    ip.reset();
+    ip_grad = std::make_shared<colvar_grid_gradient>(cmd.at("file").get<std::string>());
+    if (cvm::get_error()) { r["rc"] = 1; r["errtext"] = P->err_text; return r; }
+    ip.reset(new ip_probe(ip_grad));
+    if (cmd.value("setdiv", false)) ip->set_div();
+    r["nx"] = ip->number_of_points_vec();
+    r["nt"] = ip->number_of_points();
+    r["rc"] = 0;
+    return r;
+  }
+  if (!ip) { r["rc"] = 1; return r; }
+  if (op == "ipset") {
+    std::vector<int> ix = cmd.at("ix").get<std::vector<int>>();
+    std::vector<double> v = cmd.at("v").get<std::vector<double>>();
+    for (size_t i = 0; i < v.size(); i++) ip_grad->set_value(ix, v[i], i);
+    ip->update_div_neighbors(ix);
+    r["rc"] = 0;
+    return r;
+  }
+  if (op == "ipdiv") {
+    if (cmd.value("batch", false)) ip->set_div();
+    r["div"] = ip->div();
+    r["rc"] = 0;
+    return r;
+  }
+  if (op == "iplap") {
+    size_t const nt = ip->number_of_points();
+    json cols = json::array();
+    std::vector<cvm::real> x(nt, 0.0), y(nt, 0.0);
+    for (size_t q = 0; q < nt; q++) {
+      std::fill(x.begin(), x.end(), 0.0);
+      std::fill(y.begin(), y.end(), 0.0);
+      x[q] = 1.0;
+      ip->lap(x, y);
+      cols.push_back(y);
+    }
+    r["cols"] = cols;
+    r["rc"] = 0;
+    return r;
+  }
+  if (op == "ipsolve") {
+    cvm::real err = 0.0;
+    int const iter = ip->integrate(cmd.value("itmax", 10000), cmd.value("tol", 1e-10), err, false);
+    size_t const nt = ip->number_of_points();
+    std::vector<cvm::real> x(nt), y(nt, 0.0);
+    json data = json::array();
+    std::vector<int> ix = ip->new_index();
+    for (size_t a = 0; a < nt; a++) { x[a] = ip->value(ix); data.push_back(x[a]); ip->incr(ix); }
+    r["data"] = data; r["iter"] = iter; r["err"] = err;
+    if (ip->num_variables() > 1) { ip->lap(x, y); r["lap"] = y; r["div"] = ip->div(); }
+    r["rc"] = 0;
+    return r;
+  }
+  r["rc"] = -2;
   return r;
 }
 
@@ -413,6 +486,7 @@ static json handle(json const &cmd)
     r["commands"] = l;
     return r;
   }
+  if (op.compare(0, 2, "ip") == 0) { json m = ip_handle(cmd); m["op"] = op; return m; }
   if (op == "metric") { json m = metric_case(cmd); m["op"] = op; return m; }
   if (op == "cvmetric") {
     colvar *c = cvm::colvar_by_name(cmd.at("cv"));
